@@ -1,16 +1,26 @@
 """C03 - fields a chain does not assign pass through byte-for-byte (DESIGN.md section 3, C03).
 
-No model: the oracle is text equality between what went in and what came out.
+The oracle is text equality between what went in and what came out.
   a  bystander fields holding number spellings / hostile strings travel through chains of
      readers-not-writers (sort keys, comparisons, type tests, statistics that carry the record,
-     restructuring of *other* fields); output records are mapped to input records by unique id;
-     each carried bystander must have exactly its input text, and the bystanders must keep their
-     relative order. Input formats dkvp/csv/tsv/xtab/nidx x non-JSON output formats x {default,-S,-A,-O}.
-  f  mechanism sweep: every spelling x every builtin function of arity 1-3 (from `mlr help ...` at run time)
-     read as  put 'var y = is_error(f($x))'  - the value is read into a local that is never stored, so
+     restructuring of *other* fields, join, fill-empty, tee/split files ...); output records are mapped to input
+     records by unique id; each carried bystander must have exactly its input text, and all surviving input fields
+     must keep their relative order. Input formats dkvp/csv/tsv/xtab/nidx/json x non-JSON output formats x
+     {default,-S,-A,-O,--ofmt}; 8-23 fields per record (30 % cross the 12-field key index), --records-per-batch 1/2,
+     600-record streams. A chain of readers that exits non-zero (outside the few verbs documented to reject data),
+     crashes or hangs is a violation.
+  f  mechanism sweep: every spelling x every builtin function of arity 1-3 and every operator (from `mlr help ...`
+     at run time) read as  put 'var y = is_error(f($x))'  - the value is read into a local that is never stored, so
      DKVP output must be byte-identical to DKVP input.
-  j  the documented exception: --ojson re-renders exactly the numerals that are not legal JSON numbers,
-     to a JSON number of the same value, and nothing else (fixed small set x reading chains).
+  c  functions only read their arguments: JSON records with an array field, a map field (unsorted, nested,
+     non-canonical number tokens, 11/12/13/51 elements, dotted and integer keys) and two scalars; every builtin
+     function / operator applied to them with the result stored in a NEW field; every pre-existing field must come out
+     token for token (JSON output) / text for text (flattened DKVP output), including element and key order.
+  w  chains of 2-3 verbs from a small documented set (vf/model/c03_wide.py) on records of 10-25 fields where the
+     first changes names / order / width and the later ones reach fields by name (stale, new and untouched names):
+     field names, their order and the text of every unassigned field are judged against the documented result.
+  j  the documented exception: --ojson / --oyaml re-render exactly the numerals that are not legal JSON numbers,
+     to a number of the same value, and nothing else (fixed small set x reading chains, DKVP and JSON input).
 """
 import csv
 import hashlib
@@ -353,7 +363,9 @@ W_NAMES = [f"w{i}" for i in range(1, 13)]
 AFLAGS = FLAGS + ["--ofmt"]
 # verbs/statements that the documentation lets fail on data they cannot use (non-numeric input to a statistic, a float as
 # a map key); any other non-zero exit of a chain of readers is reported
-MAY_REJECT = {"fraction", "fraction-pc", "merge-fields-k", "put-mapkey"}
+# (put-if: "conditional expression did not evaluate to boolean" when the comparison of two hostile values is an error/absent;
+# join --ul + asserting_present: unpaired left records lack the field by construction)
+MAY_REJECT = {"fraction", "fraction-pc", "merge-fields-k", "put-mapkey", "put-if"}
 ONCE_ONLY = ("put-unset-other", "cut-x", "rename", "rename-r", "nest-explode-fields", "emit-mapexcept", "reshape-w2l", "nest-implode",
              "nest-explode-records")
 HETEROGENEOUS = ("nest-explode-fields", "sparsify", "join", "join-ul")
@@ -474,7 +486,13 @@ def chain_case(case):
                       f"signal={r.signal}): {r.err.strip()[:200]}", dict(detail, got=r.err[:2000]))
         return res
     if r.rc != 0:
-        if set(tags) & MAY_REJECT:
+        if ofmt in ("csv", "tsv") and "schema change" in r.err:
+            # a statement whose right-hand side is absent for some records skips the assignment there; the rectangular writer
+            # refuses the resulting key change (file-formats.md: "schema change") - C01/C02's subject
+            res["skipped"] += 1
+            bump(res, "rejected:schema-change")
+            return res
+        if set(tags) & MAY_REJECT or ("join-ul" in tags and "filter-asserting" in tags):
             # the chain rejected the data (non-numeric value for a statistics verb, ...): outside the domain
             res["skipped"] += 1
             bump(res, "rejected:" + "+".join(sorted(set(tags) & MAY_REJECT))[:60])
@@ -534,13 +552,18 @@ def chain_case(case):
                                   f"in NIDX output after {' '.join(chain)}", dict(detail, expected=[v for _, v, _ in ibys], got=vals))
                 continue
             okeys = [kk for kk, _ in orec]
+            unjudged = set()
             for kk, v, v0 in ibys:
+                if v0 == "" and may_drop_empty:
+                    # dropped by sparsify / remove-empty-columns, possibly re-created (at the end, filled) by unsparsify
+                    unjudged.add(kk)
+                    continue
+                if v0 == "" and fills and where == "file" and od.get(kk) == "":
+                    continue        # the file was written before fill-empty ran
                 st["checked"] += 1
                 if noncanonical_number(v):
                     st["nontriv"] = True
                 if kk not in od:
-                    if v0 == "" and may_drop_empty:
-                        continue
                     add_violation(res, dict(sig_base, kind="lost", where=where), f"bystander field {kk} of record {idv} is missing after {' '.join(chain)}",
                                   dict(detail, expected=v, got=orec))
                 elif od[kk] != v:
@@ -555,7 +578,7 @@ def chain_case(case):
                 continue
             # "in its original position": every surviving input field except `o` (the one field the catalogue renames,
             # moves, splits or removes) keeps its place relative to the others
-            inorder = [names[f] for f in layout if f != "o"]
+            inorder = [names[f] for f in layout if f != "o" and names[f] not in unjudged]
             want_order = [kk for kk in inorder if kk in od]
             got_order = [kk for kk in okeys if kk in set(inorder)]
             seen = set()
@@ -1042,6 +1065,16 @@ def _locate(want, got):
         return path, want, got
 
 
+def _nums_as_strings(v):
+    if isinstance(v, CO.Pairs):
+        return CO.Pairs((k, _nums_as_strings(x)) for k, x in v)
+    if isinstance(v, list):
+        return [_nums_as_strings(x) for x in v]
+    if isinstance(v, CO.Num):
+        return str(v)
+    return v
+
+
 def _coll_eval(res, forms, flag, mode, recs, lines):
     """Run one process evaluating every form of `forms` (list of (function name, form)) on every record.
     -> (violations as (sig, what, detail), non-trivial keys, status) with status in ok | rejected | inconclusive."""
@@ -1066,6 +1099,11 @@ def _coll_eval(res, forms, flag, mode, recs, lines):
     if r.rc != 0:
         return viols, nt, "rejected"
     out = CO.decode_records(r.out) if mode == "json" else parse_output("dkvp", r.out)
+    if flag == "-S" and mode == "json":
+        # --infer-none: "leave them as strings" - the JSON writer quotes what the flag made a string; compare the text
+        recs = [_nums_as_strings(x) for x in recs]
+        if out is not None:
+            out = [_nums_as_strings(x) for x in out]
     if out is None or len(out) != len(recs):
         viols.append((dict(sig0, kind="unparseable-output" if out is None else "record-count"),
                       f"`{prog}`: output is not {len(recs)} well-formed records", dict(detail, got=r.out[:3000])))
@@ -1521,12 +1559,16 @@ def run(chk):
     spell = all_spellings(tier, chk.rng("spellings"))
     chk.extra["spellings"] = len(spell)
     chk.extra["spellings_noncanonical_numbers"] = sum(1 for s in spell if noncanonical_number(s))
-    chk.rule = ("a: seeded random chains (1-4 verbs from a catalogue of ~130 readers-not-writers) over 1-13 records with 3-6 bystander "
-                "fields drawn from the spelling alphabet, input format x non-JSON output format x {default,-S,-A,-O}; f: every builtin "
-                "function (arity forms from `mlr help usage-functions-by-class`) x every DKVP-representable spelling, read into a discarded "
-                "local; j: fixed spelling set x 9 reading chains x 4 flags under --ojson. Non-trivial = the bystander is a number whose text "
-                "is not what Miller prints for that number (0xff, 1.500, +5, 1e5 ...) and the chain/function read it; distinct = by "
-                "(monitor, seed / function form / chain, flag, spelling).")
+    chk.rule = ("a: seeded random chains (1-4 verbs from a catalogue of ~150 readers-not-writers) over 1-13 (and 600) records with 3-18 "
+                "bystander fields drawn from the spelling alphabet, input format (incl. JSON) x non-JSON output format x "
+                "{default,-S,-A,-O,--ofmt}; f: every builtin function and operator (arity forms from `mlr help usage-functions-by-class`) x every "
+                "DKVP-representable spelling, read into a discarded local; c: every builtin function / operator x argument forms over an "
+                "array field, a map field and two scalars of JSON records, result stored in a new field; w: seeded chains of 2-3 modelled "
+                "name/order/width-changing and by-name-reaching verbs over records of 10-25 fields; j: fixed spelling set x 9 reading chains "
+                "x 4 flags under --ojson/--oyaml from DKVP and JSON input. Non-trivial = the bystander is a number whose text is not what "
+                "Miller prints for that number (0xff, 1.500, +5, 1e5 ...) and the chain/function read it (c: a record whose collections came "
+                "out intact after the function read them; w: such a value in a record at or across the 12-field threshold); distinct = by "
+                "(monitor, seed / function form / chain, flag, spelling or record).")
     if not only or "a" in only:
         n = 600 if q else 14000
         cases = [{"seed": f"{chk.seed}/a/{i}", "tier": tier, "spellings": spell if q else spell[:600], "sample": i == 3}
@@ -1540,6 +1582,11 @@ def run(chk):
                         cases.append({"seed": f"{chk.seed}/agrid/{k}", "tier": tier, "spellings": spell[:600], "ifmt": ifmt,
                                       "ofmt": ofmt, "flag": flag})
                         k += 1
+        # streams longer than the reader's 500-record batch (retaining verbs hold values from two batches)
+        pairs = [(i_, o_) for i_ in IFLAG for o_ in OFLAG]
+        chk.rng("a600").shuffle(pairs)
+        for k, (ifmt, ofmt) in enumerate(pairs[:4] if q else pairs):
+            cases.append({"seed": f"{chk.seed}/a600/{k}", "tier": tier, "spellings": spell[:600], "ifmt": ifmt, "ofmt": ofmt, "nrec": 600})
         results = chk.pmap(chain_case, cases, chunksize=8, label="a chains")
         tags = chk.stats.pop("tags", set())
         chk.extra["chain_verbs_exercised"] = sorted(tags)
@@ -1614,18 +1661,33 @@ def run(chk):
         chk.pmap(json_case, cases, label="j json exception")
         chk.extra["json_fixed_set"] = len(S)
     chk.assumptions = [
-        "non-JSON output and no --ofmt (the statement's two documented re-renderings); JSON is exercised only by monitor j",
+        "non-JSON output in monitors a, f, w(dkvp); JSON/YAML output is judged by monitor j (the documented re-rendering) and, for values that "
+        "are legal JSON tokens, by c and w; under --ofmt (monitor a) only values that are certainly not floats are judged (integers within 64 "
+        "bits, hex/binary/octal literals, strings without digits): --ofmt is documented to apply to floats, and which spellings are floats is C06's subject",
         "a spelling is fed to a format only if the format's syntax can carry it as generated: DKVP no ',' CR LF; generated CSV input "
         "unquoted (no ',' '\"' CR, no edge spaces, non-empty); TSV no TAB CR backslash, non-empty; XTAB/NIDX/PPRINT non-empty, no "
-        "space/TAB, not '-' (PPRINT's empty marker), not starting with '#'; quoting/escaping round trips are C01's subject",
-        "output records are matched to input records by the unique id field; records without it (end-block emits) carry nothing to compare",
-        "a chain that exits non-zero rejected the data (e.g. a statistics verb on a non-numeric value): skipped, not judged; crashes and "
-        "resource exhaustion are C18's subject and are counted, not judged",
+        "space/TAB, not '-' (PPRINT's empty marker), not starting with '#'; JSON input valid UTF-8 without control characters, a spelling that "
+        "is a legal JSON number is written as a number token and any other as a string; quoting/escaping round trips are C01's subject",
+        "output records are matched to input records by the unique id field; records without it (end-block emits, unpaired left records) carry nothing to compare",
+        "a chain that exits non-zero is a violation unless it contains fraction, merge-fields -k or a float used as a map key (documented to "
+        "reject non-numeric data: skipped); crashes and hangs on these small inputs are violations",
+        "fill-empty assigns exactly the empty values (expected N/A or the -v value); sparsify / remove-empty-columns may drop empty-valued "
+        "bystanders; sort-within-records changes the order (order not judged in such chains); verbs that make records heterogeneous are "
+        "not combined with rectangular output formats (C01/C02's subject)",
         "NIDX output has no keys: the bystander values must appear as an ordered subsequence of the output record's values",
         "sweep: asserting_X is called only on rows where is_X holds (it aborts by design otherwise); time-parsing functions are not fed "
-        "spellings starting with '-' and strptime gets literal formats only (they panic: C18); leftpad/rightpad get a non-empty pad",
+        "spellings starting with '-' and strptime gets literal formats only; leftpad/rightpad get a non-empty pad; a non-zero exit without a "
+        "crash on a single row is the function rejecting the value (skipped)",
         "sweep: lines on stdout that are not records (diagnostics such as fmtnum's 'unhandled format string') are removed before the byte comparison and counted",
+        "monitor c: JSON number tokens are legal JSON and within double range (1e400 is C01-F11); JSON null inside a collection is not judged in "
+        "flattened output; the new field is overwritten by typeof() of itself so that error/absent/function results cannot make the output "
+        "unparseable; several forms share one process and are re-run one by one when anything differs; a form that exits non-zero on every "
+        "record rejects that argument kind (skipped; more than a quarter of all forms doing so makes the run BROKEN)",
+        "monitor w: only argument choices whose result the usage texts determine are generated (new names always fresh, single-name reorder, "
+        "no out-of-range positional assignment, records with duplicate names declined); values assigned by a verb are not judged, only their "
+        "presence and position; ssub results are exact only for values without digits",
         "monitor j: a bare token for a spelling that is a legal JSON number must be the spelling itself; otherwise it must be a JSON number "
         "whose value is one of the documented readings (decimal, hex/binary/octal incl. 64-bit two's complement, leading-zero as octal "
-        "under -O or float for 08/09, double under -A); Inf/NaN spellings are excluded (not representable in JSON: C01); invalid UTF-8 excluded",
+        "under -O or float for 08/09, double under -A); Inf/NaN spellings are excluded (not representable in JSON: C01); invalid UTF-8 excluded; "
+        "YAML scalars are read with a one-line reader (plain, single- and double-quoted); every input record must come out with both fields",
     ]
